@@ -41,7 +41,7 @@ vars == <<cfg, wire, buf, eof, r>>
           head      : client mode: the request was HEAD,
           respond   : "sync" (the application answers inside finish) | "async" (Respond is a separate step)
                       | "early" (it answers from headers_received) | "earlydata" (from its first data_received,
-                        else inside finish),
+                        else inside finish) | "raise" (its finish() raises an exception),
           btimeout  : a body timeout is configured (BodyTimeout enabled),
           shut      : the server may shut the connection down (Shutdown enabled)] *)
 
@@ -82,6 +82,8 @@ EarlyEnd(s) == [s EXCEPT !.out = Append(@, 200), !.closed = TRUE, !.ph = "closed
 (* the message is complete *)
 AfterFinish(s, c) ==
     IF c.mode = "client" THEN [s EXCEPT !.ph = "closed", !.closed = TRUE, !.blk = TRUE]
+    ELSE IF c.respond = "raise"            \* the application's finish() raises: no response, the connection is closed,
+    THEN [s EXCEPT !.ph = "closed", !.closed = TRUE, !.blk = TRUE]      \* and finish() stays the only end notification
     ELSE IF c.respond = "async" THEN [s EXCEPT !.ph = "wait"]
     ELSE IF s.persist THEN [s EXCEPT !.ph = "head", !.out = Append(@, 200)]
     ELSE [s EXCEPT !.ph = "closed", !.closed = TRUE, !.blk = TRUE, !.out = Append(@, 200)]
